@@ -385,7 +385,7 @@ def replay(v):
         b0, l0 = np.array([0.1, 0.2]), np.array([30.0, 400.0])
         batches.append((b0, np.sqrt(Re**2 + l0**2 + 2 * Re * l0 * np.sin(b0)) - Re, l0, np.array([0.9, 1.0]), np.array([2000.0, 2100.0]), np.array([0.5, 2.0])))
         b1, l1 = np.array([0.1, 0.2, 0.15, 0.3, 0.12]), np.array([400.0, 30.0, 40.0, 900.0, 35.0])  # out-of-range decays in front of and between in-range ones
-        batches.append((b1, np.sqrt(Re**2 + l1**2 + 2 * Re * l1 * np.sin(b1)) - Re, l1, np.array([0.9, 1.0, 0.8, 0.7, 0.95]), np.array([2000.0, 2100.0, 2200.0, 2300.0, 2050.0]), np.array([0.5, 2.0, 1.0, 3.0, 0.25])))
+        batches.append((b1, np.sqrt(Re**2 + l1**2 + 2 * Re * l1 * np.sin(b1)) - Re, l1, np.array([0.010, 0.020, 0.015, 0.020, 0.012]), np.array([2000.0, 2100.0, 2200.0, 2300.0, 2050.0]), np.array([0.5, 2.0, 1.0, 3.0, 0.25])))  # (view angles inside the Cherenkov cone: non-zero fields)
         for beta, alt, ln, th, pl, E in batches:
             k = np.array([m.get("k", 2.0), 3.0, 5.0, 7.0, 11.0])[:len(E)]  # per-event factors
             with np.errstate(all="ignore"):
@@ -399,7 +399,7 @@ def replay(v):
                 bad = f"non-finite field for events with decay altitudes {alt.tolist()} km, emergence {beta.tolist()} rad (detector at {cfg.detector.initial_position.altitude} km): {F1[~np.isfinite(F1).all(axis=1)][0][:3].tolist()}..."
             elif np.any(F1[out] != 0):
                 bad = f"non-zero field for a decay at {alt[out].tolist()} km"
-            elif "linear in shower energy" in ob and not np.allclose(F2, k * F1, rtol=1e-9, atol=0):
+            elif ("linear in shower energy" in ob or "depends on no other event" in ob) and not np.allclose(F2, k * F1, rtol=1e-9, atol=0):
                 bad = f"field is not linear in the event's own shower energy (energies scaled by per-event factors {k.ravel().tolist()}, decay altitudes {np.round(alt, 2).tolist()} km)"
             if bad:
                 break
